@@ -13,6 +13,7 @@ func init() {
 	verifRegister("verifC19Appliers", verifC19Appliers)
 	verifRegister("verifC19Construct", verifC19Construct)
 	verifRegister("verifC19Compile", verifC19Compile)
+	verifRegister("verifC19CIDRNetworks", verifC19CIDRNetworks)
 	verifRegister("verifC19Legacy", verifC19Legacy)
 }
 
@@ -453,6 +454,56 @@ func verifC19Legacy() {
 	} else {
 		verifReach("accepted")
 		verifAssert(err == nil, "well-formed-list-without-duplicate-catch-alls=>accepted")
+	}
+	verifReach("done")
+}
+
+// A catch-all scoped by a CIDR and restricted by Networks: both restrictions
+// hold together. The rule applies to a local address iff the CIDR contains it
+// AND Networks allows its family; a CIDR of one family never lifts a Networks
+// restriction (seed C19-6), and an address outside the CIDR is not touched.
+func verifC19CIDRNetworks() {
+	cidrs := []string{"10.0.0.0/24", "fd00::/64"}
+	ci := verifChoice(2)
+	nets := verifChoice(3)
+	empty := verifChoice(2) == 1
+	r := AddressRewriteRule{Mode: AddressRewriteReplace, CIDR: cidrs[ci]}
+	if !empty {
+		r.External = []string{[]string{"8.8.8.1", "2001:db8::1"}[ci]}
+	}
+	switch nets {
+	case 1:
+		r.Networks = []NetworkType{NetworkTypeUDP4, NetworkTypeTCP4}
+	case 2:
+		r.Networks = []NetworkType{NetworkTypeUDP6}
+	}
+	m, err := newAddressRewriteMapper([]AddressRewriteRule{r})
+	verifAssert(err == nil, "well-formed-rule-compiles")
+	lookups := []string{"10.0.0.5", "fd00::5", "10.0.9.5", "fd00:9::5"} // inside v4, inside v6, outside v4, outside v6
+	for li, lookup := range lookups {
+		fam := li % 2
+		inside := li < 2 && fam == ci
+		allowed := nets == 0 || nets == fam+1
+		want := inside && allowed
+		matched := false
+		var ips []net.IP
+		if m != nil {
+			var ferr error
+			ips, matched, _, ferr = m.findExternalIPs(CandidateTypeHost, lookup, "")
+			verifAssert(ferr == nil, "lookup-succeeds")
+		}
+		verifAssert(matched == want, "a-CIDR-rule-applies-iff-the-CIDR-contains-the-address-and-Networks-allows-its-family")
+		if matched && want {
+			verifReach("applies")
+			if empty {
+				verifAssert(len(ips) == 0, "empty-external=drop")
+			} else {
+				verifAssert(len(ips) == 1 && ips[0].Equal(net.ParseIP(r.External[0])), "the-rule's-external-address")
+			}
+		}
+		if !want && li < 2 && fam == ci {
+			verifReach("networks-exclude-the-CIDR's-family")
+		}
 	}
 	verifReach("done")
 }
